@@ -3,12 +3,14 @@
     Model: C03/Printer.v (obj.lrepr and the _lrepr methods, as repaired by
     fixes/C03-str-printer-literal.patch), C03/ReadBack.v (basilisp.lang.reader restricted to the
     printer's output, as repaired by fixes/C03-sci-notation-float.patch), C03/Guard.v (the
-    executable guards).  CPython enters through the Section variables below (TRUSTED). *)
+    executable guards), C03/Limits.v (the printer with *print-length* / *print-level*, as
+    repaired by fixes/C03-print-dup-ignores-level.patch).  CPython enters through the Section
+    variables below (TRUSTED). *)
 From Coq Require Import List NArith ZArith Bool.
 Import ListNotations.
 From Verif Require Import Common.ListX Gen.Tables C19.Bencode C19.Edn.
-From Verif Require Import C03.Printer C03.ReadBack C03.Guard C03.Spec C03.Corr.
-From Verif Require Import C03.ProofsBase C03.ProofsLeaf C03.ProofsColl C03.ProofsMain C03.ProofsTop.
+From Verif Require Import C03.Printer C03.ReadBack C03.Guard C03.Limits C03.Spec C03.Corr.
+From Verif Require Import C03.ProofsBase C03.ProofsLeaf C03.ProofsColl C03.ProofsMain C03.ProofsTop C03.ProofsLimits.
 Local Open Scope N_scope.
 
 Section CPython.
@@ -87,7 +89,52 @@ Section CPython.
     print pc v1 = print pc v2 -> v1 = v2.
   Proof. exact (print_injective _ _ _ _ _ _ _ _ _ _ _ H_float_repr_inverse H_repr_grammar H_dec_str_inverse
                   H_dec_grammar H_imag_inverse H_uuid_inverse H_inst_inverse). Qed.
+
+  (** Under *print-dup* the round trip holds whatever *print-length* and *print-level* are bound
+      to: [printl] is the printer with all six print-control settings. *)
+  Theorem C03_print_dup_roundtrip_any_limits_partial : forall pc lim v,
+    p_dup pc = true -> guard pc v = true -> read_text (printl pc lim v) = ROk [v].
+  Proof. exact (dup_roundtrip_any_limits _ _ _ _ _ _ _ _ _ _ _ H_float_repr_inverse H_repr_grammar H_dec_str_inverse
+                  H_dec_grammar H_imag_inverse H_uuid_inverse H_inst_inverse). Qed.
 End CPython.
+
+(** The printer with *print-length* / *print-level* ([Limits.prl]: [seq_lrepr] for lists, vectors,
+    sets, queues, #py list / tuple / set, [map_lrepr] for maps and #py dict, metadata and nesting
+    included; the truncation tests carry [not print_dup] exactly where the source does, table
+    [pr_trunc_guards]).  With *print-dup* true the text is the text printed with both limits
+    nil -- for EVERY value, EVERY length limit, EVERY level limit -- and with both limits nil
+    it is the text of Printer.v, on which the round-trip theorems are stated. *)
+Theorem C03_print_dup_ignores_limits : forall pc lim v,
+  p_dup pc = true -> printl pc lim v = printl pc lim_nil v.
+Proof. exact printl_dup_eq_nil. Qed.
+
+Theorem C03_limits_nil_is_printer : forall pc v, printl pc lim_nil v = print pc v.
+Proof. exact printl_nil. Qed.
+
+(** the same for any placement of the guards: ALL FOUR conjuncts [not print_dup] suffice ... *)
+Theorem C03_print_dup_ignores_limits_guarded : forall tg pc len lvl strip v,
+  all_guarded tg = true -> p_dup pc = true ->
+  prl tg pc len lvl strip v = pr pc strip v /\ prl tg pc None None strip v = pr pc strip v.
+Proof. exact prl_guarded_both. Qed.
+
+(** ... and the level conjuncts (absent before fixes/C03-print-dup-ignores-level.patch: F-03m) and the
+    length conjunct of [map_lrepr] (the seeded regression) are necessary: without them the text
+    printed under *print-dup* is abbreviated and the reader rejects it. *)
+Theorem C03_print_dup_level_legacy_refuted :
+  let tg := TG false true false true in
+  prl tg pc_dup None (Some 1%Z) false w_nested = [91; 49; 32; 35; 93]
+  /\ prl tg pc_dup None (Some 0%Z) false w_nested = [35]
+  /\ (exists e, read0 (prl tg pc_dup None (Some 1%Z) false w_nested) = RErr e)
+  /\ read0 (print pc_dup w_nested) = ROk [w_nested].
+Proof. exact legacy_level_refuted. Qed.
+
+Theorem C03_print_dup_map_length_unguarded_refuted :
+  let tg := TG true true true false in
+  prl tg pc_dup (Some 2) None false w_map3
+  = [123; 58; 97; 32; 49; 44; 32; 58; 98; 32; 50; 44; 32; 46; 46; 46; 125]
+  /\ (exists e, read0 (prl tg pc_dup (Some 2) None false w_map3) = RErr e)
+  /\ read0 (print pc_dup w_map3) = ROk [w_map3].
+Proof. exact unguarded_map_length_refuted. Qed.
 
 (** The string printer followed by the string reader is the identity on ALL strings, whatever
     follows the closing quote. *)
@@ -189,6 +236,9 @@ Theorem C03_table_reader_consts :
   /\ forallb (fun kv => match assoc (fst kv) rd_bytes_escapes with Some r => r =? snd kv | None => false end)
              rd_str_escapes = true.
 Proof. exact table_reader_consts. Qed.
+(** every truncation test of seq_lrepr / map_lrepr starts with [not print_dup and] *)
+Theorem C03_table_trunc_guards : the_guards = TG true true true true /\ length pr_trunc_guards = 4%nat.
+Proof. exact table_trunc_guards. Qed.
 Theorem C03_table_print_defaults :
   assoc_str [80; 82; 73; 78; 84; 95; 82; 69; 65; 68; 65; 66; 76; 89] pr_print_defaults = Some 1
   /\ assoc_str [80; 82; 73; 78; 84; 95; 76; 69; 78; 71; 84; 72] pr_print_defaults = Some 0
@@ -229,3 +279,10 @@ Print Assumptions C03_table_whitespace.
 Print Assumptions C03_table_terminators.
 Print Assumptions C03_table_reader_consts.
 Print Assumptions C03_table_print_defaults.
+Print Assumptions C03_print_dup_roundtrip_any_limits_partial.
+Print Assumptions C03_print_dup_ignores_limits.
+Print Assumptions C03_limits_nil_is_printer.
+Print Assumptions C03_print_dup_ignores_limits_guarded.
+Print Assumptions C03_print_dup_level_legacy_refuted.
+Print Assumptions C03_print_dup_map_length_unguarded_refuted.
+Print Assumptions C03_table_trunc_guards.
